@@ -78,51 +78,23 @@ theorem evStep1_claim {k : Nat} {c : Hp.St} {cuts : Cuts} {e : Ev} {pc : Pc} {c'
       · cases hr
         exact ⟨.inl (fun o ho => by simp at ho), .inl rfl⟩
   · next cold ov S ht =>
-    rw [plainR_ok, guard_ok] at h
-    obtain ⟨⟨_, h⟩, _⟩ := h
     split at h
-    · rw [guard_ok] at h
-      obtain ⟨_, h⟩ := h; cases h
-      exact ⟨.inl (fun o ho => by simp at ho), .inl rfl⟩
-    · rw [guard_ok] at h
-      obtain ⟨_, h⟩ := h; cases h
+    · rw [plainR_ok, guard_ok] at h
+      obtain ⟨⟨_, h⟩, _⟩ := h; cases h
       exact ⟨.inl (fun o ho => by simp [ht] at ho), .inl rfl⟩
-  · next cold ov cell todo taken S ht =>
-    split at h
     · rw [plainR_ok, guard_ok] at h
-      obtain ⟨⟨_, h⟩, _⟩ := h; cases h
-      exact ⟨.inl (fun o ho => by simp at ho), .inl rfl⟩
-    · rw [plainR_ok, guard_ok] at h
-      obtain ⟨⟨_, h⟩, _⟩ := h; cases h
-      exact ⟨.inl (fun o ho => by simp at ho), .inl rfl⟩
-  · next cold ov cell todo taken S ht =>
-    split at h
-    · rw [plainR_ok] at h
-      obtain ⟨h, _⟩ := h
-      rcases fetchAdd_cases h with ⟨⟨ic, f, hr⟩, hfl, hfk⟩ | ⟨hr, hfok, hfl, hfo, hfr, hfk⟩
-      · cases hr; exact ⟨.inl (fun o ho => by simp [ht] at ho), .inl rfl⟩
-      · cases hr
+      obtain ⟨⟨_, h⟩, _⟩ := h
+      split at h
+      · rw [guard_ok] at h
+        obtain ⟨_, h⟩ := h; cases h
         exact ⟨.inl (fun o ho => by simp at ho), .inl rfl⟩
-    · rw [plainR_ok] at h
-      obtain ⟨h, _⟩ := h
-      rcases casLoop_c0 h with ⟨_, h2, h3⟩ | h1
-      · simp only at h2 h3; subst h2
-        exact ⟨.inl (fun o ho => by simp [h3, ht] at ho), .inl rfl⟩
-      · cases h1
-        exact ⟨.inl (fun o ho => by simp at ho), .inl rfl⟩
+      · rw [guard_ok] at h
+        obtain ⟨_, h⟩ := h; cases h
+        exact ⟨.inl (fun o ho => by simp [ht] at ho), .inl rfl⟩
   · next cold ov todo taken S ht =>
-    rw [plainR_ok] at h
-    obtain ⟨h, _⟩ := h
-    rcases fetchAdd_cases h with ⟨⟨ic, f, hr⟩, hfl, hfk⟩ | ⟨hr, hfok, hfl, hfo, hfr, hfk⟩
-    · cases hr; exact ⟨.inl (fun o ho => by simp [ht] at ho), .inl rfl⟩
-    · cases hr
-      exact ⟨.inl (fun o ho => by simp at ho), .inl rfl⟩
-  · next cold ov todo taken S ht =>
-    split at h
-    · cases h
-    · cases h
-      exact ⟨.inl (fun o ho => by simp at ho), .inl rfl⟩
-  · cases h
+    obtain ⟨_, hcl, ⟨⟨todo', taken', ht'⟩, _⟩ | ⟨_, ht', _⟩⟩ := colStep_cases ht h
+    · exact ⟨.inl (fun o ho => by simp [ht'] at ho), .inl hcl⟩
+    · exact ⟨.inl (fun o ho => by simp [ht'] at ho), .inl hcl⟩
 
 /-- what one accepted event does to `claimed`: nothing, or (only from an `obsStart` task: the claim
     step) it appends that task's observation; and an event leaves its call in an `obsStart` task only if it
@@ -132,17 +104,7 @@ theorem evStep_claim {k : Nat} {c : Hp.St} {cuts : Cuts} {e : Ev} {pc : Pc} {c' 
     (h : evStep k c cuts e pc = .ok ((c', pc', rv), cuts')) :
     ((∀ o, pc'.task ≠ some (.obsStart o)) ∨ (pc'.task = pc.task ∧ c'.claimed = c.claimed)) ∧
     (c'.claimed = c.claimed ∨ ∃ o, pc.task = some (.obsStart o) ∧ c'.claimed = c.claimed ++ [o]) := by
-  unfold evStep at h
-  have h1 := evStep1_claim h
-  rcases skipTask_cases k (parseLoc e.loc) pc.task with hs | ⟨cold, ov, cell, todo, taken, S, ht, hs, _⟩
-  · rw [skipPc_of_task_eq hs] at h1; exact h1
-  · refine ⟨?_, ?_⟩
-    · rcases h1.1 with h2 | ⟨h2, _⟩
-      · exact .inl h2
-      · exact .inl (fun o ho => by rw [h2] at ho; simp [skipPc, hs] at ho)
-    · rcases h1.2 with h2 | ⟨o, h2, _⟩
-      · exact .inl h2
-      · simp [skipPc, hs] at h2
+  exact evStep1_claim h
 
 /-- the thread can still perform the claim step of the call with its current index: it is between
     calls (the next call has index `idx`), or its open call has not claimed yet -/
